@@ -15,6 +15,8 @@
 #include <AIToolbox/Factored/Utils/FilterMap.hpp>
 #include <AIToolbox/Seeder.hpp>
 #include <algorithm>
+#include <set>
+#include <optional>
 #include <utility>
 #include <AIToolbox/Utils/IndexMap.hpp>
 #include <sys/wait.h>
@@ -110,6 +112,26 @@ static PF randomPF(Rng & rng, const F::Factors & sp, bool allowEmpty) {
     return pf;
 }
 
+// the same pairs in a random order (filter / refine take the pairs one by one: order must not matter)
+static PF shuffledPF(Rng & rng, PF pf) {
+    for (size_t i = pf.first.size(); i > 1; --i) {
+        size_t j = rng.below(i);
+        std::swap(pf.first[i - 1], pf.first[j]); std::swap(pf.second[i - 1], pf.second[j]);
+    }
+    return pf;
+}
+static PF concatPF(const PF & a, const PF & b) {
+    PF r = a;
+    r.first.insert(r.first.end(), b.first.begin(), b.first.end());
+    r.second.insert(r.second.end(), b.second.begin(), b.second.end());
+    return r;
+}
+static void statKey(const char * what, const PF & pf, const F::Factors & sp) {
+    bool prefix = true;
+    for (size_t i = 0; i < pf.first.size(); ++i) prefix = prefix && pf.first[i] == i;
+    std::printf("#stat %s_%s 1\n", what, pf.first.empty() ? "empty" : pf.first.size() == sp.size() ? "full" : pf.first.size() == 1 ? "single" : prefix ? "prefix" : "non_prefix");
+}
+
 struct Issued { size_t id; PF pf; bool live; };
 
 static bool firstIsSmallest(const F::Factors & sp) {
@@ -145,12 +167,41 @@ static void trie_case(Rng & rng, const F::Factors & sp, int maxOps) {
     int nops = (int)rng.range(8, maxOps);
     bool heavyErase = rng.coin(1, 3);
     for (int o = 0; o < nops; ++o) {
-        unsigned r = (unsigned)rng.below(100);
+        unsigned r = (unsigned)rng.below(114);
+        if (o >= 3 && r >= 100) {
+            if (r < 105) {
+                // refine chain: refine(filter(q1), q2) must be filter(q1 ++ q2)
+                PF q1 = randomPF(rng, sp, false), q2 = randomPF(rng, sp, true);
+                auto ids1 = t.filter(q1);
+                auto res = t.refine(ids1, q2);
+                l << "rfc"; pfTok(l, q1); pfTok(l, q2); l.nats(ids1); l.nats(res);
+                std::printf("#stat refine_chain_%s 1\n", res.empty() ? "empty" : "nonempty");
+            } else if (r < 109) {
+                // two refinements of an arbitrary ascending id list vs one refinement by the joined (unsorted, possibly repeated) key
+                std::vector<size_t> ids;
+                for (size_t i = 0; i < next + 2; ++i) if (rng.coin(3, 4)) ids.push_back(i);
+                PF q1 = randomPF(rng, sp, false), q2 = randomPF(rng, sp, false);
+                auto r1 = t.refine(ids, q1);
+                auto r2 = t.refine(r1, q2);
+                auto r12 = t.refine(ids, concatPF(q1, q2));
+                l << "rr"; l.nats(ids); pfTok(l, q1); pfTok(l, q2); l.nats(r1); l.nats(r2); l.nats(r12);
+                std::printf("#stat refine_refine_%s 1\n", r2.empty() ? "empty" : "nonempty");
+            } else if (r < 111) {
+                t.reserve((size_t)rng.below(64)); l << "rsv";
+                std::printf("#stat trie_reserve 1\n");
+            } else {
+                // continue the history on a copy of the trie (copy-construct, then move back)
+                F::Trie c(t); t = std::move(c); l << "cpy";
+                std::printf("#stat trie_copy 1\n");
+            }
+            continue;
+        }
         if (o < 3 || r < 32) {
             PF pf = pickKey(rng, sp, issued, true);
             size_t id = t.insert(pf);
             l << "ins"; pfTok(l, pf); l << id;
             issued.push_back({id, pf, true}); next = std::max(next, id + 1);
+            statKey("insert_key", pf, sp);
         } else if (r < (heavyErase ? 50u : 40u)) {
             int kind; long v = pickVictim(rng, issued, kind);
             size_t id = v >= 0 ? issued[v].id : next + rng.below(3);
@@ -170,6 +221,8 @@ static void trie_case(Rng & rng, const F::Factors & sp, int maxOps) {
         } else if (r < 70) {
             PF q = randomPF(rng, sp, true);
             if (q.first.empty() && risky && g_allIdsCrashes) { std::printf("#stat avoided_allids 1\n"); continue; }
+            statKey("query_key", q, sp);
+            if (q.first.size() >= 2 && rng.coin(1, 3)) { q = shuffledPF(rng, q); std::printf("#stat query_keys_shuffled 1\n"); }
             auto res = t.filter(q);
             l << "flt"; pfTok(l, q); l.nats(res);
             std::printf("#stat filter_%s 1\n", res.empty() ? "empty" : "nonempty");
@@ -187,6 +240,7 @@ static void trie_case(Rng & rng, const F::Factors & sp, int maxOps) {
             unsigned dens = 1 + (unsigned)rng.below(3);
             for (size_t i = 0; i < next + 2; ++i) if (rng.coin(dens, 4)) ids.push_back(i);
             PF q = randomPF(rng, sp, true);
+            if (q.first.size() >= 2 && rng.coin(1, 3)) { q = shuffledPF(rng, q); std::printf("#stat refine_keys_shuffled 1\n"); }
             auto res = t.refine(ids, q);
             l << "ref"; l.nats(ids); pfTok(l, q); l.nats(res);
         } else {
@@ -202,8 +256,11 @@ static void trie_case(Rng & rng, const F::Factors & sp, int maxOps) {
     }
     if (!(risky && g_sizeCrashes)) l << "siz" << t.size();
     if (!(risky && g_allIdsCrashes)) { auto res = t.filter(PF{}); l << "flt"; pfTok(l, PF{}); l.nats(res); }
+    l << "gf"; l.nats(t.getF()); l.nats(t.getFactors());
     l << "end"; l.emit();
     std::printf("#stat trie_shape_%s 1\n", risky ? "first_not_smallest" : "first_smallest");
+    std::printf("#stat trie_nfactors_%zu 1\n", sp.size());
+    std::printf("#stat trie_has_size1_factor_%d 1\n", (int)(std::find(sp.begin(), sp.end(), (size_t)1) != sp.end()));
 }
 
 static void ftrie_case(Rng & rng, const F::Factors & sp, int maxOps) {
@@ -213,7 +270,28 @@ static void ftrie_case(Rng & rng, const F::Factors & sp, int maxOps) {
     Line l; l << "C20" << "ftrie"; l.nats(sp);
     int nops = (int)rng.range(8, maxOps);
     for (int o = 0; o < nops; ++o) {
-        unsigned r = (unsigned)rng.below(100);
+        unsigned r = (unsigned)rng.below(106);
+        if (o >= 3 && r >= 100) {
+            if (r < 102) {
+                F::FasterTrie c(t); t = std::move(c); l << "cpy";
+                std::printf("#stat ftrie_copy 1\n");
+            } else {
+                // the same query reconstructed several times in a row (remove = false): each outcome must satisfy the clauses;
+                // the shuffles differ from call to call
+                PF q = randomPF(rng, sp, true);
+                std::set<std::vector<size_t>> outcomes;
+                for (int k = 0; k < 4; ++k) {
+                    auto [entries, f] = t.reconstruct(q, false);
+                    l << "rec"; pfTok(l, q); l << false << (size_t)entries.size();
+                    std::vector<size_t> ids;
+                    for (auto & e : entries) { l << e.first; pfTok(l, e.second); ids.push_back(e.first); }
+                    l.nats(f);
+                    std::sort(ids.begin(), ids.end()); outcomes.insert(ids);
+                }
+                std::printf("#stat reconstruct_burst_distinct_outcomes_%zu 1\n", outcomes.size());
+            }
+            continue;
+        }
         if (o < 3 || r < 35) {
             PF pf = pickKey(rng, sp, issued, false);
             size_t id = t.insert(pf);
@@ -327,6 +405,46 @@ static void indexmap_case(Rng & rng) {
     emitIterWalk("cown", cown, cont);
 }
 
+
+// the rest of FilterMap's interface, common to both trie types: operator[], begin()/end(), getContainer(), getF(), reserve(),
+// FilterMap(trie, items) (accepting and rejecting).  Returns true when it emitted an op.
+template <class FM>
+static bool fmapExtraOp(Rng & rng, Line & l, FM & fm, const F::Factors & sp, size_t nItems) {
+    unsigned r = (unsigned)rng.below(7);
+    const FM & cfm = fm;
+    if (r == 0) {
+        if (!nItems) return false;
+        size_t id = rng.below(nItems);
+        l << "get" << id << (rng.coin() ? fm[id] : cfm[id]);
+    } else if (r == 1) {
+        std::vector<size_t> a, b;
+        if (rng.coin()) for (auto it = fm.begin(); it != fm.end(); ++it) a.push_back(*it);
+        else for (auto it = cfm.begin(); it != cfm.end(); ++it) a.push_back(*it);
+        b = cfm.getContainer();
+        l << "all"; l.nats(a); l.nats(b);
+    } else if (r == 2) {
+        l << "gf"; l.nats(fm.getF()); l.nats(sp);
+    } else if (r == 3) {
+        fm.reserve((size_t)rng.below(64)); l << "rsv";
+    } else if (r == 4) {
+        // rebuild from (trie, new items): the documented way to change the item type; go on with the rebuilt map
+        std::vector<size_t> items(nItems);
+        for (size_t i = 0; i < nItems; ++i) items[i] = 5000 + 11 * i + rng.below(7);
+        std::string out = "ok";
+        try { FM fm2(fm.getTrie(), items); fm = std::move(fm2); } catch (const std::exception & e) { out = errClass(e); }
+        l << "rbd"; l.nats(items); l << out;
+    } else {
+        // wrong container size: must be rejected
+        size_t n = nItems + 1 + rng.below(3);
+        if (nItems && rng.coin()) n = rng.below(nItems);
+        std::string out = "ok";
+        try { FM fm2(fm.getTrie(), std::vector<size_t>(n, 7)); } catch (const std::exception & e) { out = errClass(e); }
+        l << "rbx" << n << out;
+    }
+    std::printf("#stat filtermap_extra_op_%u 1\n", r);
+    return true;
+}
+
 static void fmap_trie_case(Rng & rng, const F::Factors & sp, int maxOps) {
     using FM = F::FilterMap<size_t, F::Trie>;
     FM fm(sp);
@@ -335,7 +453,8 @@ static void fmap_trie_case(Rng & rng, const F::Factors & sp, int maxOps) {
     Line l; l << "C20" << "fmt"; l.nats(sp);
     int nops = (int)rng.range(6, maxOps);
     for (int o = 0; o < nops; ++o) {
-        unsigned r = (unsigned)rng.below(100);
+        unsigned r = (unsigned)rng.below(125);
+        if (o >= 3 && r >= 100) { fmapExtraOp(rng, l, fm, sp, issued.size()); continue; }
         if (o < 3 || r < 45) {
             PF pf = pickKey(rng, sp, issued, true);
             size_t item = 1000 + 7 * issued.size() + rng.below(5);
@@ -357,7 +476,9 @@ static void fmap_trie_case(Rng & rng, const F::Factors & sp, int maxOps) {
             F::Factors f(len);
             for (size_t i = 0; i < len; ++i) f[i] = rng.below(sp[off + i]);
             l << "flf"; l.nats(f) << off;
-            if (off == 0 && rng.coin()) emitIterable<FM>(l, fm.filter(f)); else emitIterable<FM>(l, fm.filter(f, off));
+            if (off == 0 && rng.coin()) { if (rng.coin()) emitIterable<FM>(l, fm.filter(f)); else emitIterable<FM>(l, static_cast<const FM &>(fm).filter(f)); }
+            else if (rng.coin()) emitIterable<FM>(l, fm.filter(f, off));
+            else { emitIterable<FM>(l, static_cast<const FM &>(fm).filter(f, off)); std::printf("#stat fmt_const_offset_filter 1\n"); }
         } else {
             l << "siz" << fm.size();
             if (!(risky && g_sizeCrashes)) l << "siz" << fm.getTrie().size();
@@ -379,7 +500,8 @@ static void fmap_ftrie_case(Rng & rng, const F::Factors & sp, int maxOps) {
     Line l; l << "C20" << "fmf"; l.nats(sp);
     int nops = (int)rng.range(6, maxOps);
     for (int o = 0; o < nops; ++o) {
-        unsigned r = (unsigned)rng.below(100);
+        unsigned r = (unsigned)rng.below(125);
+        if (o >= 3 && r >= 100) { fmapExtraOp(rng, l, fm, sp, issued.size()); continue; }
         if (o < 3 || r < 50) {
             PF pf = pickKey(rng, sp, issued, false);
             size_t item = 1000 + 7 * issued.size() + rng.below(5);
@@ -391,7 +513,7 @@ static void fmap_ftrie_case(Rng & rng, const F::Factors & sp, int maxOps) {
             F::Factors f(len);
             for (size_t i = 0; i < len; ++i) f[i] = rng.below(sp[i]);
             l << "flf"; l.nats(f) << (size_t)0;
-            emitIterable<FM>(l, fm.filter(f));
+            if (rng.coin()) emitIterable<FM>(l, fm.filter(f)); else emitIterable<FM>(l, static_cast<const FM &>(fm).filter(f));
         } else {
             l << "siz" << fm.size() << "siz" << fm.getTrie().size();
         }
@@ -399,6 +521,106 @@ static void fmap_ftrie_case(Rng & rng, const F::Factors & sp, int maxOps) {
     try { FM fm2(fm.getTrie(), fm.getContainer()); l << "siz" << fm2.size(); }
     catch (const std::exception & e) { l << "siz" << (size_t)888888; }
     l << "end"; l.emit();
+}
+
+
+// FilterMap(trie, items) given a trie that has seen erasures: the constructor compares sizes only.  The ids a filter hands out are
+// read with toContainerId() (never dereferenced here), so an id outside the container is reported, not executed.
+// `C20 fmc trie|ftrie <F> <ops…> | n outcome nq (q ids)*`
+template <class TrieT>
+static void fmc_case(Rng & rng, const F::Factors & sp, const char * kind) {
+    constexpr bool isTrie = std::is_same_v<TrieT, F::Trie>;
+    TrieT t(sp);
+    std::vector<Issued> issued;
+    Line l; l << "C20" << "fmc" << kind; l.nats(sp);
+    int nins = (int)rng.range(2, 7);
+    for (int i = 0; i < nins; ++i) {
+        PF pf = randomPF(rng, sp, false);
+        size_t id = t.insert(pf);
+        l << "ins"; pfTok(l, pf); l << id;
+        issued.push_back({id, pf, true});
+    }
+    unsigned mode = (unsigned)rng.below(4);   // 0: no erasure, 1: erase the last, 2: erase a middle one, 3: a few
+    std::vector<size_t> victims;
+    if (mode == 1) victims.push_back(issued.size() - 1);
+    else if (mode == 2) victims.push_back(rng.below(issued.size() - 1));
+    else if (mode == 3) for (size_t i = 0; i < issued.size(); ++i) if (rng.coin(1, 3)) victims.push_back(i);
+    for (size_t v : victims) {
+        if (!issued[v].live) continue;
+        issued[v].live = false;
+        if (isTrie && rng.coin()) { if constexpr (isTrie) t.erase(issued[v].id); l << "era" << issued[v].id; }
+        else { t.erase(issued[v].id, issued[v].pf); l << "erp" << issued[v].id; pfTok(l, issued[v].pf); }
+    }
+    l << "|";
+    const size_t n = t.size();
+    std::vector<size_t> items(n);
+    for (size_t i = 0; i < n; ++i) items[i] = 3000 + i;
+    std::string out = "ok";
+    std::optional<F::FilterMap<size_t, TrieT>> fm;
+    try { fm.emplace(t, items); } catch (const std::exception & e) { out = errClass(e); }
+    l << n << out;
+    std::vector<F::Factors> qs;
+    if (fm) {
+        qs.push_back(F::Factors{});
+        for (int k = 0; k < 3; ++k) {
+            size_t len = isTrie ? (size_t)rng.range(1, (long)sp.size()) : sp.size();
+            F::Factors f(len);
+            for (size_t i = 0; i < len; ++i) f[i] = rng.below(sp[i]);
+            qs.push_back(f);
+        }
+    }
+    l << (size_t)qs.size();
+    for (auto & f : qs) {
+        std::vector<size_t> ids;
+        auto r = fm->filter(f);
+        for (auto it = r.begin(); it != r.end(); ++it) ids.push_back(it.toContainerId());
+        l.nats(f); l.nats(ids);
+    }
+    l.emit();
+    std::printf("#stat fmc_%s_mode_%u 1\n", kind, mode);
+}
+
+// IndexSkipMap: the container without the listed ids.  `C20 ism <kind> <ids> <cont> | visited values size`
+template <class M>
+static void emitSkipWalk(const char * kind, M && m, const std::vector<size_t> & ids, const std::vector<size_t> & cont, bool constIt) {
+    std::vector<size_t> visited, vals;
+    if (constIt) for (auto it = m.cbegin(); it != m.cend(); ++it) { visited.push_back(it.toContainerId()); vals.push_back(*it); }
+    else for (auto it = m.begin(); it != m.end(); ++it) { visited.push_back(it.toContainerId()); vals.push_back(*(it.operator->())); }
+    Line l; l << "C20" << "ism" << (std::string(kind) + (constIt ? "_c" : "")); l.nats(ids); l.nats(cont); l << "|";
+    l.nats(visited); l.nats(vals); l << (size_t)m.size(); l.emit();
+    std::printf("#stat ism_size_call_%s 1\n", m.size() == visited.size() ? "equals_range" : m.size() == ids.size() ? "equals_skip_count" : "other");
+}
+static void skipmap_case(Rng & rng) {
+    const size_t N = (size_t)rng.range(0, 12);
+    std::vector<size_t> cont(N);
+    for (size_t i = 0; i < N; ++i) cont[i] = 700 + 13 * i + rng.below(7);
+    std::vector<size_t> ids;
+    unsigned mode = (unsigned)rng.below(8);   // 0..4 ascending subset, 5: ascending with ids beyond the container, 6: unsorted, 7: repeated
+    for (size_t i = 0; i < N + (mode == 5 ? 3 : 0); ++i) if (rng.coin(1 + (unsigned)rng.below(3), 4)) ids.push_back(i);
+    if (mode == 6 && ids.size() >= 2) std::swap(ids[0], ids[ids.size() - 1]);
+    if (mode == 7 && !ids.empty()) ids.insert(ids.begin() + (long)rng.below(ids.size()), ids[rng.below(ids.size())]);
+    std::printf("#stat ism_ids_%s 1\n", mode <= 4 ? "ascending" : mode == 5 ? "ascending_beyond_container" : mode == 6 ? "unsorted" : "repeated");
+    std::printf("#stat ism_skips_%s 1\n", ids.empty() ? "none" : ids.size() >= N ? "all_or_more" : "some");
+    const bool c = rng.coin();
+    { AIToolbox::IndexSkipMap<std::vector<size_t>, std::vector<size_t>> m(ids, cont); emitSkipWalk("own", m, ids, cont, c); }
+    { AIToolbox::IndexSkipMap<std::vector<size_t>*, std::vector<size_t>> m(&ids, cont); emitSkipWalk("ref", m, ids, cont, !c); }
+    { AIToolbox::IndexSkipMap<std::vector<size_t>*, const std::vector<size_t>> m(&ids, cont); emitSkipWalk("cref", m, ids, cont, c); }
+}
+
+// IndexMap::sort(): `C20 srt <ids> <cont> | ids' values'`
+static void sort_case(Rng & rng) {
+    const size_t N = (size_t)rng.range(1, 12);
+    std::vector<size_t> cont(N);
+    const bool ties = rng.coin();
+    for (size_t i = 0; i < N; ++i) cont[i] = ties ? 900 + rng.below(4) : 900 + rng.below(1000);
+    std::vector<size_t> ids((size_t)rng.below(10));
+    for (auto & x : ids) x = rng.below(N);
+    AIToolbox::IndexMap<std::vector<size_t>, std::vector<size_t>> m(ids, cont);
+    m.sort();
+    std::vector<size_t> ids2, vals;
+    for (auto it = m.begin(); it != m.end(); ++it) { ids2.push_back(it.toContainerId()); vals.push_back(*it); }
+    Line l; l << "C20" << "srt"; l.nats(ids); l.nats(cont); l << "|"; l.nats(ids2); l.nats(vals); l.emit();
+    std::printf("#stat sort_%s_len_%s 1\n", ties ? "ties" : "distinct", ids.size() < 2 ? "0_1" : ids.size() < 5 ? "2_4" : "5plus");
 }
 
 static void ctor_case() {
@@ -453,12 +675,24 @@ void verif::verif_case(Rng & rng, long idx, const std::string & tier) {
         ctor_case();
         return;
     }
-    if (idx == 1) { fixed_cases(); for (int i = 0; i < 40; ++i) indexmap_case(rng); return; }
+    if (idx == 1) {
+        fixed_cases();
+        const int rep = tier == "thorough" ? 200 : 40;
+        for (int i = 0; i < rep; ++i) indexmap_case(rng);
+        for (int i = 0; i < 2 * rep; ++i) skipmap_case(rng);
+        for (int i = 0; i < 2 * rep; ++i) sort_case(rng);
+        for (int i = 0; i < 2 * rep; ++i) {
+            F::Factors sp((size_t)rng.range(2, 5));
+            for (auto & d : sp) d = (size_t)rng.range(1, 4);
+            if (rng.coin()) fmc_case<F::Trie>(rng, sp, "trie"); else fmc_case<F::FasterTrie>(rng, sp, "ftrie");
+        }
+        return;
+    }
     long k = idx - kFixed;
     const int maxOps = tier == "thorough" ? 400 : 60;
     F::Factors rsp;
     if (k >= (long)g_spaces.size() * g_perShape) {
-        size_t n = (size_t)rng.range(2, 6);
+        size_t n = (size_t)(rng.coin(1, 5) ? rng.range(7, 9) : rng.range(2, 6));
         rsp.resize(n);
         for (auto & d : rsp) d = (size_t)rng.range(1, 5);
         std::printf("#stat random_shape_%s 1\n", firstIsSmallest(rsp) ? "first_smallest" : "first_not_smallest");
